@@ -159,7 +159,11 @@ def sr : P String := do
   let s1 ← P.nat; let rew ← P.q; P.eof
   let comp := "Model::sample-" ++ kind
   let v : Verdict := { tag := "sr-" ++ kind }
-  let v := denseOne comp row v (u, s1)
+  -- sparse model objects: a draw at or above the stored row sum must still land on a state the row supports
+  let v := if kind == "sparse" && decide (row.sum ≤ u) && onGrid u && row.all onGrid then
+      (v.failIf (decide (row.length ≤ s1)) s!"{comp} out_of_range index={s1}").failIf (decide (row.getD s1 0 ≤ 0))
+        s!"{comp} outside_support state={s1} u={ratStr u} rowsum={ratStr row.sum}"
+    else denseOne comp row v (u, s1)
   let v := v.failIf (rew != rexp) s!"{comp} wrong_reward impl={ratStr rew} table={ratStr rexp}"
   let v := v.diffIf ((sampleSR (fun _ _ => row) (fun _ _ => rexp) 0 0 u).2 != rew) s!"{comp} reward"
   return v.render
@@ -179,6 +183,18 @@ def sor : P String := do
   let v := if v.tag == "illc" then v else v.diffIf (m != (s1, ob, rew)) s!"{comp} model={m.1},{m.2.1} impl={s1},{ob}"
   return v.render
 
+/-- `fsr rows… us… R | s1… reward` : CooperativeModel::sampleSR, one scan per state factor -/
+def fsr : P String := do
+  let rows ← P.qss; let us ← P.qs; let rexp ← P.q; P.bar
+  let s1 ← P.nats; let rew ← P.q; P.eof
+  if rows.length != us.length || rows.length != s1.length then P.fail
+  let comp := "CooperativeModel::sampleSR"
+  let v : Verdict := { tag := "fsr" }
+  let v := (rows.zip (us.zip s1)).foldl (fun v (row, ur) => denseOne comp row v ur) v
+  let v := v.failIf (rew != rexp) s!"{comp} wrong_reward impl={ratStr rew} table={ratStr rexp}"
+  let v := if v.tag == "illc" then v else v.diffIf (sampleFactored rows us != s1) s!"{comp} model={sampleFactored rows us} impl={s1}"
+  return v.render
+
 def handle (toks : List String) : String :=
   let r := match toks with
     | "dense" :: rest => P.run dense rest
@@ -189,6 +205,7 @@ def handle (toks : List String) : String :=
     | "vsample" :: rest => P.run vsample rest
     | "sr" :: rest => P.run sr rest
     | "sor" :: rest => P.run sor rest
+    | "fsr" :: rest => P.run fsr rest
     | _ => none
   r.getD "bad-op"
 
